@@ -27,8 +27,14 @@ def pregen(check):
     if r.returncode != 0 or "end GeomV.C20" not in r.stdout:
         check.broken.append("route extractor failed on the current source: " + r.stderr.strip()[-300:])
         return
+    # fourth extractor: the PARAMETER switch of parseWKTParameter, the tail of wkt(), the use of the UNIT factor (translated), the path
+    # expressions of shp.NewDecoder / (*Decoder).SR (translated)  ->  WktGen.lean (tie lemmas in ProofsWktGen.lean, ProofsPrj.lean)
+    w = subprocess.run([gobin, "wktgen", vcheck.REPO], stdout=subprocess.PIPE, stderr=subprocess.PIPE, text=True)
+    if w.returncode != 0 or "end GeomV.C20" not in w.stdout:
+        check.broken.append("wkt extractor failed on the current source: " + w.stderr.strip()[-300:])
+        return
     with vcheck.Lock("lake"):
-        for name, text in (("Tables.lean", p.stdout), ("EqualGen.lean", q.stdout), ("RouteGen.lean", r.stdout)):
+        for name, text in (("Tables.lean", p.stdout), ("EqualGen.lean", q.stdout), ("RouteGen.lean", r.stdout), ("WktGen.lean", w.stdout)):
             path = os.path.join(vcheck.LEAN, "GeomV", "C20", name)
             old = open(path).read() if os.path.exists(path) else ""
             if old != text:
@@ -38,7 +44,8 @@ def pregen(check):
 
 CFG = {
     "id": "C20",
-    "lean_modules": ["GeomV.C20.Proofs", "GeomV.C20.ProofsEqual", "GeomV.C20.ProofsRegistry", "GeomV.C20.ProofsWgs", "GeomV.C20.ProofsNumeral"],
+    "lean_modules": ["GeomV.C20.Proofs", "GeomV.C20.ProofsEqual", "GeomV.C20.ProofsRegistry", "GeomV.C20.ProofsWgs", "GeomV.C20.ProofsNumeral",
+                     "GeomV.C20.ProofsWktGen", "GeomV.C20.ProofsPrj", "GeomV.C20.ProofsEqualGen"],
     "exe": "geomv_c20",
     "go_cmd": "c20",
     "stages": ["go:gen", "lean:prep", "go:impl", "lean:judge"],
@@ -66,11 +73,21 @@ CFG = {
                                  # the numeral contract PROVED for every decimal with <= 400 fractional digits; the two headline
                                  # theorems without it as a hypothesis
                                  "C20_numeral_contract", "C20_parse_agree_scales", "C20_transform_agree_scales", "numeralOK_of_scale",
-                                 "parseFloat_render", "numeralsRead_of_scales"]],
+                                 "parseFloat_render", "numeralsRead_of_scales",
+                                 # phase 4: the PARAMETER switch, the tail of wkt() and the use of the UNIT factor REGENERATED from wkt.go
+                                 # (WktGen.lean) and their ties to the model
+                                 "genParamSet_eq", "genWktFinish_eq", "genUnitSet_eq", "parseWKTParameter_gen", "wkt_gen", "parseWKTUnit_gen",
+                                 "wktgen_source_pins",
+                                 # phase 4: which .prj a layer is read from — the path expressions of NewDecoder / Decoder.SR regenerated,
+                                 # over an arbitrary file system and every layer name
+                                 "C20_prj_siblings", "C20_prj_path", "C20_prj_own_file", "C20_prj_same_text_equal", "trimSuffix_append",
+                                 # phase 4: Equal as a relation on the REGENERATED walk, all references (nil datum included)
+                                 "C20_equal_gen_refl", "C20_equal_gen_not_refl_nil", "C20_equal_gen_symm", "C20_equal_gen_trans",
+                                 "C20_equal_gen_not_trans"]],
     "level": "proof",
     "trusted_base": [
         "Lean 4.33.0 kernel; axioms of every theorem printed by #print axioms must be within {propext, Classical.choice, Quot.sound}",
-        "model lean/GeomV/C20/Model.lean is tied to /repo/proj by the correspondence run (every field of the parsed SR bit for bit, Equal, nil-ness) on every check; its tables, the field lists of SR/datum, the case bodies of `equal` (translated statement by statement), the body of checkNotWGS and the workaround condition of NewTransform's closure (translated), and the deciding statements of NewTransform / its closure / (*Decoder).SR (source text) are regenerated from the Go source by the pregen hook",
+        "model lean/GeomV/C20/Model.lean is tied to /repo/proj by the correspondence run (every field of the parsed SR bit for bit, Equal, nil-ness) on every check; its tables, the field lists of SR/datum, the case bodies of `equal` (translated statement by statement), the body of checkNotWGS and the workaround condition of NewTransform's closure (translated), the switch of parseWKTParameter, the statements of wkt() after the sections and the use of the UNIT factor in parseWKTUnit (translated), the path expressions of shp.NewDecoder / (*Decoder).SR (translated), and the deciding statements of NewTransform / its closure / (*Decoder).SR (source text) are regenerated from the Go source by the pregen hook",
         "strings.EqualFold against the ASCII constant \"WGS84\" is modelled by lean/GeomV/C20/Fold.lean (simple case folding: the other ASCII case, plus U+212A for K/k and U+017F for S/s)",
         "the transformation pipeline below the route decision is C08's model (lean/GeomV/C08/Proj*.lean), tied to the code by C08's check",
         "strconv.ParseFloat is correctly rounded (modelled by exact rational rounding); IEEE-754 binary64 arithmetic of Lean's Float equals Go's on amd64 (no fused multiply-add)",
